@@ -329,6 +329,85 @@ def typed_ok(pn, raw_kind, out, wd):
     return True
 
 
+NON_SCALAR = ('list_int', 'list_str', 'list_mixed', 'nested', 'empty_list', 'dict', 'empty_dict', 'none', 'command', 'type')
+STRS = ('str', 'str_int', 'str_float', 'str_bool', 'abs_path', 'rel_path', 'result_name')
+
+
+def expected_outcome(pn, kind, wd):
+    """documented outcome where the documentation settles it: True = must succeed, False = must raise the
+    parameter error, None = depends on the value"""
+    if pn in ('Parameter', 'String'):
+        return True
+    if pn == 'Number':
+        if kind in ('int', 'float', 'bool', 'str_int', 'str_float'):
+            return True
+        if kind in NON_SCALAR or kind == 'str_bool':
+            return False
+        return None
+    if pn == 'Boolean':
+        if kind in ('bool', 'int', 'str_bool', 'str_int'):
+            return True
+        if kind in NON_SCALAR or kind in ('float', 'str_float'):
+            return False
+        return None
+    if pn == 'Path':
+        if kind == 'abs_path':
+            return True
+        if kind == 'rel_path':
+            return bool(wd)
+        return None
+    if pn == 'Tuple':
+        if kind in ('dict', 'empty_dict', 'empty_list'):
+            return True
+        return False if kind not in ('list_int', 'list_str', 'list_mixed', 'nested') else False
+    if pn == 'DataType':
+        if kind in ('str', 'type', 'result_name'):
+            return None
+        return False
+    if pn.startswith('List'):
+        if kind in ('empty_list',):
+            return True
+        if kind not in ('list_int', 'list_str', 'list_mixed', 'nested'):
+            return False
+        if pn == 'ListAny':
+            return True
+        if pn == 'ListNumber' and kind == 'list_int':
+            return True
+        if pn == 'ListString':
+            return True
+        return None
+    if pn.startswith('Result'):
+        if kind not in ('command', 'result_name'):
+            return False
+        return None
+    return None
+
+
+def expected_value(pn, kind, raw, out):
+    """term saying the cleaned value is the documented one (where the documentation fixes it), else None"""
+    if pn == 'Number' and kind in ('int', 'float'):
+        return equal_values(raw, out)
+    if pn == 'Boolean' and kind == 'int':
+        return z3.BoolVal(out is (raw != 0)) if isinstance(out, bool) else None
+    if pn == 'Boolean' and kind == 'bool':
+        return z3.BoolVal(out is raw)
+    if pn == 'Boolean' and kind == 'str_bool':
+        want = z3.InRe(raw.e, symx.ci_regex('true'))
+        return (out.e if isinstance(out, SymBool) else z3.BoolVal(bool(out))) == want
+    if pn == 'Boolean' and kind == 'str_int':
+        v = symx.text_to_number(raw, 'int')
+        return (out.e if isinstance(out, SymBool) else z3.BoolVal(bool(out))) == (v != 0)
+    if pn == 'String' and kind in STRS and isinstance(raw, str):
+        return equal_values(raw, out)
+    if pn == 'Path' and kind == 'abs_path':
+        return equal_values(raw, out)
+    if pn == 'Path' and kind == 'rel_path' and isinstance(out, str):
+        return symx._sterm(out) == z3.Concat(z3.StringVal(WD + '/'), raw.e)
+    if pn == 'ListNumber' and kind == 'list_int':
+        return equal_values(raw, out)
+    return None
+
+
 def call_clean(param, raw, program, E):
     try:
         return 'ok', param.clean(raw, program, lineno=7)
@@ -360,6 +439,15 @@ def harness(ctx, cfg):
         obs.append((label, term if z3.is_expr(term) else z3.BoolVal(bool(term))))
         groups[label] = '%s %s' % (cfg['param'], group)
     ob('cleaning returns a value or raises the parameter error (got %s)' % oc1, not oc1.startswith('escaped'), 'escaped-exception')
+    exp = expected_outcome(cfg['param'], cfg['raw'], cfg['wd'])
+    if exp is True:
+        ob('a value of this kind is accepted (got %s)' % oc1, oc1 == 'ok', 'documented-accept')
+    elif exp is False:
+        ob('a value of this kind raises the parameter error (got %s)' % oc1, oc1.startswith('param-error'), 'documented-reject')
+    if oc1 == 'ok':
+        ev = expected_value(cfg['param'], cfg['raw'], raw, out1)
+        if ev is not None:
+            ob('the cleaned value is the documented one', ev, 'documented-value')
     # purity
     shape_after, leaves_after = snapshot(raw)
     ob('the raw argument is not altered', shape_before == shape_after and len(leaves_before) == len(leaves_after), 'purity')
